@@ -499,9 +499,9 @@ def c18_slice(root, thorough):
     from . import scancal
     cal = scancal.run()
     servers().stop_all()
-    if cal['problems']:
-        print('HARNESS-FAILURE stub calibration (C18 slice): %s' % cal['problems'][0][:1200])
-        return None, core.EXIT_HARNESS
+    cal_failed = bool(cal['problems'])
+    if cal_failed:
+        print('NOTE stub calibration failed (C18 slice): %s' % cal['problems'][0][:600])
     n = 120 if thorough else 16
     try:
         results = core.pmap(exec_job, [(root, i, thorough, 'C18') for i in range(n)], jobs=min(core.ncpu(), 8),
@@ -543,4 +543,7 @@ def c18_slice(root, thorough):
         info['violations'].append({'signature': sig, 'replay': path})
         code = core.EXIT_VIOLATION
         break
+    if cal_failed and code == core.EXIT_HELD:
+        print('HARNESS-FAILURE stub calibration failed and the cache-history slice found no difference: nothing can be concluded')
+        return info, core.EXIT_HARNESS
     return info, code
